@@ -39,7 +39,7 @@ func (list *List) LPop(count int) ([]string, bool) {
 	elems := []string{}
 	for n := 0; n < count; n++ {
 		if len(list.elements) < 1 {
-			continue
+			break
 		}
 		elems = append(elems, list.elements[0])
 		list.elements = list.elements[1:]
@@ -61,7 +61,7 @@ func (list *List) RPop(count int) ([]string, bool) {
 	elems := []string{}
 	for n := 0; n < count; n++ {
 		if len(list.elements) < 1 {
-			continue
+			break
 		}
 		elems = append(elems, list.elements[len(list.elements)-1])
 		list.elements = list.elements[:len(list.elements)-1]
